@@ -59,7 +59,10 @@ def check_body(ctx, fx, cfg, text, bclass):
     elif isinstance(obs.parsed, dict):
         ctx.count("seen:error-object" if obs.parsed.get("error") is not None else "seen:result-object")
     if obs.wf and inside:
-        ctx.violate("wellformed:%s:%s" % (obs.wf, cfg[1]), case, {"output": obs.output})
+        why = obs.wf
+        if why == "output-not-json" and parsed[0] == "ok" and oracle.nonfinite_id(parsed[1]):
+            why = "output-not-json:id-beyond-the-double-range-echoed-as-Infinity"
+        ctx.violate("wellformed:%s:%s" % (why, cfg[1]), case, {"output": obs.output})
     return obs
 
 
@@ -129,6 +132,22 @@ def run(ctx):
     for i in range(ctx.pick(10000, 200000)):
         cfg = rng.choice(keys)
         check_body(ctx, fxs[cfg], cfg, reqgen.random_text(rng), "text")
+    # standard numerals at and beyond the limits of a double, as ids and as arguments
+    numerals = ["1e999", "-1e999", "1E400", "123456789e999", "1.7976931348623157e308", "1.8e308", "-1.8e308",
+                "5e-324", "1e-999", "-0.0", "0e0", "1" + "0" * 400, "-" + "9" * 310 + ".5"]
+    n = 0
+    for num in numerals:
+        for tmpl in ('{"jsonrpc": "2.0", "method": "echo", "params": [1], "id": %s}',
+                     '{"method": "echo", "params": [1], "id": %s}',
+                     '{"jsonrpc": "2.0", "method": "nosuch", "id": %s}',
+                     '{"jsonrpc": "2.0", "id": %s}',
+                     '[{"jsonrpc": "2.0", "method": "echo", "id": 1}, {"jsonrpc": "2.0", "method": "fail", "id": %s}]',
+                     '{"jsonrpc": "2.0", "method": "echo", "params": [%s], "id": 7}',
+                     '{"jsonrpc": "2.0", "method": "two", "params": {"a": %s, "b": 0}, "id": 7}'):
+            for cfg in keys:
+                n += 1
+                if ctx.mine(n):
+                    check_body(ctx, fxs[cfg], cfg, tmpl % num, "numerals")
 
     # 5. deep nesting (implementation limits must still not escape)
     depths = ctx.pick([50, 400, 990, 1100, 5000], [50, 200, 400, 600, 990, 1000, 1100, 3000, 5000, 20000, 100000])
